@@ -17,6 +17,7 @@ func init() {
 	vRegister("H_C03_kinds_separated", H_C03_kinds_separated)
 	vRegister("H_C03_transplant", H_C03_transplant)
 	vRegister("H_C03_signature_forms", H_C03_signature_forms)
+	vRegister("H_C03_unprotected_edits", H_C03_unprotected_edits)
 }
 
 // refVerifier: a built-in verifier and the primitive's verdict on (ToBeSigned, signature) stated independently
@@ -112,7 +113,15 @@ func H_C03_sign1_iff() {
 	rv := mkRefVerifier("v")
 	pairs, present, matches := c03AlgPairs("m", rv)
 	prot, protContent := c03Protected("m", pairs)
-	_, unprot := mkLayer("m.u", 6+c07Pick("m.ufeature", 2, 3), mkFaultPlan(0), 0)
+	var unprot *vNodeT
+	if uf := c07Pick("m.ufeature", 3, 3); uf < 2 {
+		_, unprot = mkLayer("m.u", 6+uf, mkFaultPlan(0), 0)
+	} else {
+		// an alg parameter in the unprotected bucket (any value, e.g. the verifier's own): attacker-editable, never consulted
+		mag := vUint64("m.ualg")
+		vAssume(mag <= 1<<63-1)
+		unprot = nnMap([]*vNodeT{nnInt(0, 1, -1), nnInt(vChoose("m.ualgsign", 2), mag, vWidth("m.ualgw", mag))}, -1)
+	}
 	payload := vBlob("payload")
 	sig := vBlobN("sig", 1, 600)
 	ext := c07External()
@@ -363,6 +372,44 @@ func H_C03_signature_forms() {
 		vAssert("forms: the genuine fixed-width signature verifies", res == nil)
 	} else {
 		vAssert("forms: any other spelling of a genuine signature is refused", res == ErrVerification)
+	}
+	vReach("end")
+}
+
+// a genuinely signed COSE_Sign1 whose unprotected bucket is then edited at will (kid, unknown labels,
+// an alg parameter of any value): the verdict is that of the protected header, external data and signature alone
+func H_C03_unprotected_edits() {
+	c07Start(1)
+	rv := mkRefVerifier("v")
+	hasAlg := vChoose("palg", 2) == 0
+	var pairs []*vNodeT
+	if hasAlg {
+		pairs = c07AlgEntry("m", rv.alg)
+	}
+	prot, protContent := c03Protected("m", pairs)
+	payload := vBlob("payload")
+	ext := mkExternal("ext")
+	sig := rv.sign(refSigStructure("Signature1", [][]byte{protContent}, ext, payload, nil))
+	var unprot *vNodeT
+	switch vChoose("edit", 4) {
+	case 0:
+		unprot = nnMap(nil, vWidth("uw", 0))
+	case 1:
+		_, unprot = mkLayer("m.u", 6, mkFaultPlan(0), 0)
+	case 2:
+		_, unprot = mkLayer("m.u", 7, mkFaultPlan(0), 0)
+	case 3:
+		mag := vUint64("ualg")
+		vAssume(mag <= 1<<63-1)
+		unprot = nnMap([]*vNodeT{nnInt(0, 1, -1), nnInt(vChoose("ualgsign", 2), mag, vWidth("ualgw", mag))}, -1)
+	}
+	var m Sign1Message
+	vAssume(m.UnmarshalCBOR(vSer(nnTag(18, nnArray([]*vNodeT{prot, unprot, nnBstr(payload, vWidth("plw", uint64(len(payload)))), nnBstr(sig, vWidth("sigw", uint64(len(sig))))}, 0), 0))) == nil)
+	res := m.Verify(ext, rv.ver)
+	if hasAlg || len(ext) > 0 {
+		vAssert("unprotected edits: the genuine signature still verifies", res == nil)
+	} else {
+		vAssert("unprotected edits: no protected alg and no external data stays an error", res != nil)
 	}
 	vReach("end")
 }
